@@ -56,6 +56,7 @@ type aop struct {
 	V     int    `json:"v"`   // value in model units
 	Req   int64  `json:"req"` // gas request; -1 = more than 64 bits ("all")
 	CN    int    `json:"cn"`  // create: creator's nonce when the op executes
+	Tg    int    `json:"tg"`  // call: 0 = the contract childAddr(ID) running a child frame; 1..4 = precompiled contract; 5 = fresh plain address
 }
 
 type opNode struct {
@@ -78,8 +79,31 @@ type frameNode struct {
 // names of the concrete accounts
 type names struct {
 	origin, bene, token, root common.Address
-	unit                      *big.Int // concrete amount of one model balance unit
-	tunit                     *big.Int // concrete amount of one model token unit
+	unit                      *big.Int       // concrete amount of one model balance unit
+	tunit                     *big.Int       // concrete amount of one model token unit
+	fresh                     common.Address // the plain address that is not in the pre-state (native target 5)
+}
+
+const (
+	nDyn    = 5 // native call targets of the model (accounts NAcc0+1 .. NAcc0+5)
+	tgFresh = 5
+)
+
+// nativeAddr is the concrete address of native call target tg (1..4: the precompiled
+// contracts of this tree, 5: the fresh plain address).
+func (nm names) nativeAddr(tg int) common.Address {
+	if tg == tgFresh {
+		return nm.fresh
+	}
+	return common.BytesToAddress([]byte{byte(tg)})
+}
+
+// callTarget is the address a call op names.
+func (nm names) callTarget(n *opNode) common.Address {
+	if n.Tg != 0 {
+		return nm.nativeAddr(n.Tg)
+	}
+	return childAddr(n.ID)
 }
 
 func childAddr(id int) common.Address {
@@ -96,13 +120,17 @@ func defaultNames(inst int) names {
 		token:  common.HexToAddress("0x7070707070707070707070707070707070707003"),
 		root:   common.HexToAddress("0xc1c1c1c1c1c1c1c1c1c1c1c1c1c1c1c1c1c1c104"),
 	}
+	// the fresh address: one that a later precompile set would claim (5, 9) or an arbitrary one
 	switch inst % 3 {
 	case 0:
 		n.unit, n.tunit = big.NewInt(1), big.NewInt(1)
+		n.fresh = common.BytesToAddress([]byte{5})
 	case 1:
 		n.unit, n.tunit = big.NewInt(1e18), big.NewInt(1e9)
+		n.fresh = common.HexToAddress("0xf5f5f5f5f5f5f5f5f5f5f5f5f5f5f5f5f5f5f506")
 	default:
 		n.unit, n.tunit = big.NewInt(1e9), new(big.Int).Lsh(big.NewInt(1), 62)
+		n.fresh = common.BytesToAddress([]byte{9})
 	}
 	return n
 }
@@ -118,7 +146,7 @@ func buildTree(ops []aop, topKind string) (*frameNode, error) {
 			return nil, fmt.Errorf("op %d refers to unknown frame %d", o.ID, o.Frame)
 		}
 		n := &opNode{aop: o}
-		if o.Op == "call" || o.Op == "create" {
+		if (o.Op == "call" && o.Tg == 0) || o.Op == "create" {
 			k := o.Kind
 			if o.Op == "create" {
 				k = "create"
@@ -232,8 +260,10 @@ func assemble(f *frameNode, nm names) error {
 			a.push2(pc)
 			a.op(opJUMP)
 		case "call":
-			if err := assemble(n.child, nm); err != nil {
-				return err
+			if n.child != nil {
+				if err := assemble(n.child, nm); err != nil {
+					return err
+				}
 			}
 			a.push1(0)
 			a.push1(0)
@@ -255,7 +285,7 @@ func assemble(f *frameNode, nm names) error {
 			if code == opCALL || code == opCALLCODE {
 				a.pushN(8, amount(nm.unit, n.V))
 			}
-			a.pushAddr(childAddr(n.ID))
+			a.pushAddr(nm.callTarget(n))
 			a.pushGas(n.Req)
 			a.op(code)
 			n.mid = len(a.b)
